@@ -39,10 +39,15 @@ pub fn replay(cases: &str, verdicts: &str) {
         if converged { budgets.push(k + 1); budgets.push(horizon + 50); }
         for budget in budgets {
             evals.set(0);
+            // history of the optimizer object: fresh, or one that has already solved another problem (one parameter more, then two
+            // fewer): the result is a function of the call's arguments alone
+            let warm = Cell::new(false);
+            let warmup = |o: &dyn Fn(&[f64])| { if warm.get() { let w: Vec<f64> = (0..x0.len() + 1).map(|i| 1.5 - i as f64).collect(); o(&w); if x0.len() >= 2 { o(&w[..x0.len() - 1]); } } };
             let run = || -> Option<Vec<f64>> {
                 if opt == "sgd" {
                     let (a, b, cc) = (f64s(&cfg["a"]), f64s(&cfg["b"]).iter().map(|t| t * sc).collect::<Vec<f64>>(), num(&cfg["c"]));
                     let o = SGD::new(num(&cfg["alpha"]), num(&cfg["mu"]), cfg["nesterov"].as_bool().unwrap());
+                    guard(|| warmup(&|w: &[f64]| { o.optimize(|p: &[Var], _d: &[&[f64]]| { let mut s = p[0] * p[0]; for i in 1..p.len() { s = s + p[i] * p[i] * (i as f64 + 1.0); } s }, w, &[], 3); }))?;
                     guard(|| o.optimize(|p: &[Var], _d: &[&[f64]]| {
                         evals.set(evals.get() + 1);
                         let mut s = p[0] * p[0] * a[0] + p[0] * b[0];
@@ -54,6 +59,7 @@ pub fn replay(cases: &str, verdicts: &str) {
                     let (cw, at) = (f64s(&cfg["cw"]), f64s(&cfg["at"]).iter().map(|t| t * sc).collect::<Vec<f64>>());
                     let hinge = cfg["hinge"].as_bool().unwrap_or(false);
                     let o = Adam::new(num(&cfg["alpha"]) * sc, num(&cfg["b1"]), num(&cfg["b2"]), num(&cfg["eps"]));
+                    guard(|| warmup(&|w: &[f64]| { o.optimize(|p: &[Var], _d: &[&[f64]]| { let mut s = p[0] * p[0]; for i in 1..p.len() { s = s + p[i] * p[i] * (i as f64 + 1.0); } s }, w, &[], 3); }))?;
                     guard(|| o.optimize(|p: &[Var], _d: &[&[f64]]| {
                         evals.set(evals.get() + 1);
                         // one-sided variant: c (|x - a| + (x - a)), gradient exactly zero to the left of a
@@ -75,6 +81,14 @@ pub fn replay(cases: &str, verdicts: &str) {
             v.check(n_evals == k, "objective evaluations", &class, &json!({"case": c, "maxsteps": budget}), json!({"evaluations": n_evals, "steps_in_spec": k}));
             let det = match (&g, &g2) { (Some(a), Some(b)) => a.iter().zip(b).all(|(x, y)| x.to_bits() == y.to_bits()), _ => false };
             v.check(det, "deterministic", &class, &json!({"case": c, "maxsteps": budget}), json!(null));
+            if budget == k {
+                warm.set(true); evals.set(0);
+                let g3 = run();
+                let n3 = evals.get();
+                warm.set(false);
+                let same = match (&g, &g3) { (Some(a), Some(b)) => a.iter().zip(b).all(|(x, y)| x.to_bits() == y.to_bits()), _ => false };
+                v.check(same && n3 == n_evals, "same result on a reused optimizer", &class, &json!({"case": c, "maxsteps": budget}), json!({"fresh": g.as_ref().map(|g| fjs(g)), "reused": g3.as_ref().map(|g| fjs(g)), "evaluations": n3}));
+            }
         }
       }
     });
@@ -111,6 +125,16 @@ fn lm_case(v: &mut Verdicts, c: &Value) {
             }
             None => v.check(false, "LM reaches least squares", &format!("{} {}", class, sname), c, json!("panic")),
         }
+    }
+    // the optimizer object has no memory: a second problem solved on the same object (after one with another parameter count)
+    // gives bit for bit what a fresh object gives
+    {
+        fn line<'a>(pr: &[Var<'a>], d: &[&[f64]]) -> Var<'a> { let t = d[0][0]; let mut s = pr[0] + 0.0; let mut pw = t; for i in 1..pr.len() { s = s + pr[i] * pw; pw *= t; } s }
+        let start = vec![0.0; p];
+        let fresh = guard(|| LM::new(1e-14, 1e-14, 1e-2).optimize(line, &start, &[&x, &y], 200));
+        let reused = guard(|| { let lm = LM::new(1e-14, 1e-14, 1e-2); lm.optimize(line, &vec![1.0; p + 1], &[&x, &y], 3); lm.optimize(line, &start, &[&x, &y], 200) });
+        let same = match (&fresh, &reused) { (Some((a, ca)), Some((b, cb))) => a.iter().zip(b.iter()).all(|(u, w)| u.to_bits() == w.to_bits()) && ca.data.iter().zip(cb.data.iter()).all(|(u, w)| u.to_bits() == w.to_bits() || (u.is_nan() && w.is_nan())), _ => false };
+        v.check(same, "same result on a reused optimizer", &format!("LM {}", class), c, json!({"fresh": fresh.as_ref().map(|g| fjs(&g.0)), "reused": reused.as_ref().map(|g| fjs(&g.0))}));
     }
     // default stopping tolerances from a start whose norm is a thousand times the solution's: the small-step test must follow the
     // CURRENT parameters (a threshold frozen at the start would stop 1e-3 early)
